@@ -8,7 +8,7 @@ import sympy as sp
 
 from .. import units as U
 from ..anf import is_zero, short
-from ..dfmodel import DFV, SeqV, DF_LIB, Printed, df_wrap
+from ..dfmodel import DFV, SeqV, DF_LIB, Printed, df_wrap, grad
 from ..facts import KeyObj, KEYS21, voigt_canon, c_intrinsic
 from ..libsum import lib_func, positional_params, return_arity, numba_signature_readonly_intolerant
 from ..model import dotted_name, src, body_wo_doc
@@ -159,6 +159,7 @@ def _run_main(ctx, model, interp, with_table, system=None, cellmass=None, sample
         intr["builtins." + kname] = intr[kname]
     seeds = {("global", "cij.util.units:units"): UnitReg(), ("global", "cij.util:c_"): LibV("cij.c_")}
     ev = Ev(model, seeds, intr, ctx=ctx)
+    ev.grid_scalars = {VR, NTV, PMIN, DP}
     f = model.func(REF)
     mod = model.mods["cij.cli.static"]
     kwargs = dict(input01="input01", input02=("elast.dat" if with_table else None), interp=interp, ntv=NTV, cellmass=cellmass,
@@ -186,7 +187,7 @@ class R:
         self.VG = homogeneous("LINSPACE", [F("MIN")(VOLS) / VR, F("MAX")(VOLS) * VR, NTV], (0, 1))
         self.xg = s(at0(VOLS), self.VG)
         self.FG = linear("FIT", [self.xs, ENER, self.xg, sp.Integer(2)], 1)
-        self.PG = -linear("GRAD", [self.FG], 0) / linear("GRAD", [self.VG], 0)
+        self.PG = -grad(self.FG) / grad(self.VG)
         if interp == "none":
             self.V, self.Fc = VOLS, ENER
             self.P = linear("SPLINE", [self.VG, self.PG, VOLS], 1, same_scale_groups=((0, 2),))
